@@ -2088,6 +2088,36 @@ skip_false_if_block(bool consider_elifs) {
         }
         level--;
       }
+    } else if (c == '"') {
+      // A string literal: a comment opener inside it does not start a
+      // comment.  It ends at the closing quote or at the end of the line.
+      c = get();
+      while (c != EOF && c != '\n' && c != '"') {
+        if (c == '\\') {
+          // Whatever follows a backslash is part of the literal; a newline
+          // continues it on the next line.
+          c = get();
+          if (c == EOF) {
+            break;
+          }
+        }
+        c = get();
+      }
+      if (c == '"') {
+        c = skip_comment(get());
+      }
+    } else if (c == '\'') {
+      // A character literal such as '"' or '\''.
+      c = get();
+      if (c == '\\') {
+        c = get();
+      }
+      if (c != EOF && c != '\n') {
+        c = get();
+      }
+      if (c != EOF && c != '\n') {
+        c = skip_comment(get());
+      }
     } else {
       c = skip_comment(get());
     }
